@@ -119,6 +119,11 @@ ASSUMPTIONS = [
     "col_stats contents are not part of this property (only the materialization gate is observed)",
     "materialize() mutates and returns its receiver; it is modelled as an in-place update of the store entry",
     "asserts are enabled (python is not run with -O)",
+    "index expressions whose requested rows the property does not define - a boolean mask whose length is not the number "
+    "of rows (incl. an empty mask), a slice step <= 0, a column selection naming a column that does not exist - may "
+    "raise or return any dataset that keeps the invariant (aligned, every row a row of its source with its own label and "
+    "split value, source unchanged); they are compared with the Coq model only when the implementation raises.  "
+    "Out-of-range integers / list, range and tensor entries name a row that does not exist: a raise is demanded",
     "float slice bounds and ratios are finite doubles; lengths are far below 2^53",
     "OUTSIDE the quantifier (documented limitation, not generated): uint8 tensors as an index.  torch treats a uint8 "
     "tensor as a (deprecated) byte mask while df.iloc reads it as positions, so d[torch.tensor([1,0,1,0,1], "
@@ -204,7 +209,11 @@ def root_state(case):
 def ref_apply(st, step, perm=None):
     """The property's demands for one operation on the dataset described by `st`
     (plain lists).  Returns a list with one expectation per new dataset:
-    ("node", state) | ("err", why) | ("either", state)."""
+    ("node", state) | ("err", why) | ("either", state) | ("free", parent state, why) | ("freecols", state, why).
+    "free": the property does not define the requested rows (a boolean mask whose length is not the number of rows, a
+    non-positive slice step, a non-finite bound): a raise, or any derived dataset that keeps the invariant.
+    "freecols": a column selection naming a column that does not exist."""
+    FREE = ("mask length", "non-positive step")
     o = step["o"]
     n = len(st["rows"])
 
@@ -219,18 +228,19 @@ def ref_apply(st, step, perm=None):
         try:
             return [("node", sub(R.ref_positions(step["idx"], n)))]
         except R.RefErr as ex:
-            return [("err", str(ex))]
+            # out-of-range integers / list entries name a row that does not exist: a raise is demanded
+            return [("free", st, str(ex)) if str(ex) in FREE else ("err", str(ex))]
     if o == "fslice":
         cut = []
         for b in (step["a"], step["b"]):
             v = bound_py(b)
             if isinstance(v, float):
                 if math.isnan(v) or math.isinf(v):
-                    return [("err", "non-finite bound")]
+                    return [("free", st, "non-finite bound")]
                 v = ref_round(v * float(n))
             cut.append(v)
         if step["s"] is not None and step["s"] <= 0:
-            return [("err", "non-positive step")]
+            return [("free", st, "non-positive step")]
         return [("node", sub(list(range(n))[slice(cut[0], cut[1], step["s"])]))]
     if o == "shuffle":
         if perm is None:
@@ -250,7 +260,7 @@ def ref_apply(st, step, perm=None):
             return [("err", "col_select after materialization")]
         cols = list(step["cols"])
         if any(c not in st["cols"] for c in cols):
-            return [("err", "unknown column")]
+            return [("freecols", st, "unknown column")]
         if st["target"] is not None and st["target"] not in cols:
             cols = cols + [st["target"]]
         keys = [c for i, c in enumerate(cols) if c not in cols[:i]]      # a dict keeps a repeated name once
@@ -1002,6 +1012,61 @@ def cmp_node(snap, want, kind, idx):
     return None
 
 
+def cmp_free(snap, par, kind, idx, cols_only=False):
+    """A step whose result the property does not define (see ref_apply): only the invariant is judged - DataFrame and
+    TensorFrame row-aligned, every row a row of the parent (with its own label and split value), flags and columns
+    intact (for a column selection: same rows, the target kept, no invented column).  Returns (failure, new state)."""
+    if snap.get("prob"):
+        return dict(key=f"misaligned:{kind}", what=f"step {idx} {kind}: {snap['prob']}"), None
+    if snap["rid"] is None:
+        return dict(key=f"wrong-rows:{kind}", what=f"step {idx} {kind}: rows cannot be identified"), None
+    byid = {}
+    for r in par["rows"]:
+        byid.setdefault(r[1], r)
+    rows = []
+    for i, (l, r) in enumerate(zip(snap["labels"], snap["rid"])):
+        src = byid.get(r)
+        if src is None or src[0] != l or (snap["split"] is not None and snap["split"][i] != src[2]):
+            return dict(key=f"wrong-rows:{kind}", what=f"step {idx} {kind}: returned row (label {l!r}, id {r}) is not a "
+                        f"row of the dataset it was taken from"), None
+        rows.append(list(src))
+    if snap["mat"] != par["mat"]:
+        return dict(key=f"materialized-flag:{kind}", what=f"step {idx} {kind}: is_materialized={snap['mat']}"), None
+    if snap["mat"] and snap["tf"] != snap["rid"]:
+        return dict(key=f"misaligned:{kind}", what=f"step {idx} {kind}: TensorFrame rows {snap['tf']} are not the "
+                    f"DataFrame rows {snap['rid']}", expected=snap["rid"], observed=snap["tf"]), None
+    state = dict(par, rows=rows)
+    if cols_only:
+        if [r[1] for r in rows] != [r[1] for r in par["rows"]]:
+            return dict(key=f"wrong-rows:{kind}", what=f"step {idx} {kind}: a column selection changed the rows"), None
+        if par["target"] is not None and (par["target"] not in snap["cols"] or snap["target"] != par["target"]):
+            return dict(key="target-dropped", what=f"step {idx} {kind} lost the target column"), None
+        if any(c not in par["dfcols"] for c in snap["cols"]) or any(c not in par["cols"] for c in snap["stypes"]):
+            return dict(key=f"wrong-cols:{kind}", what=f"step {idx} {kind}: invented columns {snap['cols']}"), None
+        keys = list(snap["stypes"])
+        state = dict(state, cols=keys, dfcols=list(snap["cols"]), has_split="s" in snap["cols"],
+                     dup=par.get("dup", False) or len(set(snap["cols"])) != len(snap["cols"]))
+    elif snap["cols"] != par["dfcols"] or snap["stypes"] != par["cols"]:
+        return dict(key=f"wrong-cols:{kind}", what=f"step {idx} {kind}: a row selection changed the columns"), None
+    return None, state
+
+
+def step_is_free(st, parent_len):
+    """the steps whose outcome the property leaves open (mirrors ref_apply); used to keep them out of the correspondence
+    when the implementation did return a dataset"""
+    o = st["o"]
+    if o == "sel":
+        ix = st["idx"]
+        if ix["t"] == "mask":
+            return parent_len is None or len(ix["m"]) != parent_len
+        return ix["t"] == "slice" and ix["s"] is not None and ix["s"] <= 0
+    if o == "fslice":
+        return st["s"] is not None and st["s"] <= 0
+    if o == "col_select":
+        return any(c not in ("rid", "f2", "y") for c in st["cols"])
+    return False
+
+
 def oracle(case, obs):
     if "harness_exc" in obs:
         return dict(key="harness-exc", what="harness failed to run the case: " + obs["harness_exc"], tb=obs.get("tb"))
@@ -1066,12 +1131,18 @@ def oracle(case, obs):
                 ref.append(None)
                 continue
             if not g["ok"]:
-                if e[0] == "either":
+                if e[0] in ("either", "free", "freecols"):
                     ref.append(None)
                     continue
                 return dict(key=f"raises:{kind}",
                             what=f"step {idx} {kind} raised {g.get('exc')} ({g.get('msg')}) where the property demands "
                                  f"rows {[r[1] for r in e[1]['rows']]}", expected=[r[1] for r in e[1]["rows"]])
+            if e[0] in ("free", "freecols"):
+                f, state = cmp_free(g["nodes"][j], e[1], kind, idx, cols_only=e[0] == "freecols")
+                if f:
+                    return f
+                ref.append(state)
+                continue
             f = cmp_node(g["nodes"][j], e[1], kind, idx)
             if f:
                 return f
@@ -1432,12 +1503,17 @@ def coq_term(case, obs):
     d0 = (f"(fresh {rows} {C.clist(cols + ['s'], C.cstr)} {C.clist(cols, C.cstr)} "
           f"{C.copt('y' if case['target'] else None, C.cstr)} (Some {C.cstr('s')}))")
     prog, exp = [], []
-    # reference bookkeeping only to infer the permutation of a shuffle() that did not report one
+    lens = [n]              # rows of every dataset as the implementation showed them (None: the call raised)
     try:
         for st, g in zip(case["prog"], obs["steps"]):
             o = st["o"]
             k = 3 if o == "split" else (1 if o in DERIVING else 0)
             g = dict(g)
+            plen = lens[st["p"]] if st["p"] < len(lens) else None
+            if not g.get("skipped") and g.get("ok") and step_is_free(st, plen):
+                return None     # outcome left open by the property and not a raise: nothing to compare with the model
+            if k:
+                lens += [len(sn["labels"]) for sn in g["nodes"]] if (g.get("ok") and not g.get("skipped")) else [None] * k
             if o == "shuffle" and g.get("ok") and "perm" not in g:
                 g["perm_inferred"] = infer_perm_from_obs(case, obs, st, g)
                 if g["perm_inferred"] is None:
